@@ -60,6 +60,22 @@ func compareSpec(c *Ctx, r *Report, specs []layerSpec, kind string, notCovered m
 		for _, k := range names {
 			want := append([]string{}, sp.Want[k]...)
 			sort.Strings(want)
+			// a key ending in "?" is judged only when the extraction followed the value on every
+			// path: a rendering beginning with "?" (a value assembled in a local array and
+			// assigned whole, say) is not a layout the table can be compared with
+			if strings.HasSuffix(k, "?") {
+				k = strings.TrimSuffix(k, "?")
+				opaque := false
+				for _, x := range got[k] {
+					if strings.HasPrefix(x, "?") {
+						opaque = true
+					}
+				}
+				if opaque {
+					r.OK(label+"|"+k, fn.Pos(), "not judged: "+strings.Join(got[k], " | ")+" is not a form the extraction follows")
+					continue
+				}
+			}
 			g := got[k]
 			ok := strings.Join(g, " | ") == strings.Join(want, " | ")
 			gs := strings.Join(g, " | ")
@@ -70,7 +86,8 @@ func compareSpec(c *Ctx, r *Report, specs []layerSpec, kind string, notCovered m
 		}
 		if notCovered != nil {
 			for k := range got {
-				if _, ok := sp.Want[k]; !ok && !strings.HasPrefix(k, "len ") {
+				_, lenient := sp.Want[k+"?"]
+				if _, ok := sp.Want[k]; !ok && !lenient && !strings.HasPrefix(k, "len ") {
 					notCovered[label] = append(notCovered[label], k)
 				}
 			}
